@@ -541,7 +541,10 @@ SHARD_OF = {}     # scenario id -> index of the shard (broker process) that exec
 BRIDGES_OF = {}   # scenario id -> configured bridge list of the shard that executed it
 
 
-def validate(chk, by_sc, locked=False, max_rounds=12, bridges=None):
+MAX_TRACE_EVENTS = 45000    # TLC handles behaviours of at most 65535 states; one event is one state
+
+
+def validate(chk, by_sc, locked=False, max_rounds=12, bridges=None, start_resync=False):
     """TLC trace validation of all scenarios in one JVM; returns a list of
     findings (scenario id, kind, detail) where kind is 'reject:<event>' or
     'inv:<Invariant>'.  Scenarios that fail are removed and the rest re-checked."""
@@ -573,8 +576,22 @@ def validate(chk, by_sc, locked=False, max_rounds=12, bridges=None):
     findings = []
     pos = {sid: n for n, sid in enumerate(ORDER)}
     ids = sorted(by_sc, key=lambda x: pos.get(x, x))
+    if sum(len(by_sc[i]) for i in ids) > MAX_TRACE_EVENTS and len(ids) > 1:
+        # too long for one behaviour: consecutive pieces, each starting with unknown counts
+        # (the metrics of a piece's first scenarios are not judged until a new BrokerContext starts)
+        accepted, piece, size, first = 0, {}, 0, True
+        for i in ids + [None]:
+            if i is None or (piece and size + len(by_sc[i]) > MAX_TRACE_EVENTS):
+                f, a = validate(chk, piece, locked=locked, max_rounds=max_rounds, bridges=bridges, start_resync=start_resync or not first)
+                findings += f
+                accepted += a
+                piece, size, first = {}, 0, False
+            if i is not None:
+                piece[i] = by_sc[i]
+                size += len(by_sc[i])
+        return findings, accepted
     accepted = 0
-    resync = False
+    resync = start_resync
     prev = None
     for _ in range(max_rounds):
         if not ids:
